@@ -402,3 +402,71 @@ Definition sel_rank (s : state) : nat :=
   | SWaiting => 6 | SNotified => 5 | STop => 4 | SHeld => 3 | SExiting => 1
   | SDone => 0 | SNotStarted => 0
   end.
+
+(* ---- bounded-response measures (phase 3) ---- *)
+Definition kind_eqb (a b : kind) : bool := match a, b with KR, KR | KW, KW => true | _, _ => false end.
+Definition ready (k : kind) (s : state) (f : fd) : bool := match k with KR => readable s f | KW => writable s f end.
+Definition inl (k : kind) (f : fd) (a : snap) : bool := mem f (match k with KR => fst a | KW => snd a end).
+Definition slen (a : snap) : nat := length (fst a) + length (snd a).
+Definition nregs (s : state) : nat := length (readers s) + length (writers s).
+Definition closing_or_new (p : lpc) : bool :=
+  match p with
+  | LNew | LCloseWant | LCloseHeld | LCloseNotified | LCloseWake | LCloseJoin | LCloseRm | LCloseFin | LClosed => true
+  | _ => false
+  end.
+
+(* fd f is registered for k, ready, and close() has not been entered *)
+Definition live (k : kind) (f : fd) (s : state) : Prop :=
+  f <> 0 /\ mem f (regs k s) = true /\ ready k s f = true /\ closing_or_new (lp s) = false.
+
+(* steps the selector thread can still take on its own before it either blocks or moves the token *)
+Definition selcost (p : spc) : nat :=
+  match p with STop => 2 | SHeld => 1 | SNotified => 2 | _ => 0 end.
+
+(* an upper bound on the number of internal steps before [Callback k f] *)
+Definition dist (k : kind) (f : fd) (s : state) : nat :=
+  let unc (a : snap) := if inl k f a then 0 else 12 + nregs s in
+  (if pend s then 1 else 0) + selcost (sp s) +
+  match lp s with
+  | LInit => 15 + nregs s
+  | LSpawn => 12 + nregs s
+  | LStartWant => 11 + nregs s
+  | LStartHeld => 10 + nregs s
+  | LHandle rs ws => slen (rs, ws) + unc (rs, ws)
+  | LStartNotified | LRun =>
+      (match lp s with LStartNotified => 1 | _ => 0 end) +
+      match args s with
+      | Some a => 6 + slen a + unc a
+      | None =>
+          match sp s with
+          | STaken r w => 6 + slen (r, w) + unc (r, w)
+          | SSelecting r w => 5 + slen (r, w) + unc (r, w)
+          | SGot rs ws => 4 + slen (rs, ws) + unc (rs, ws)
+          | _ => match queue s with
+                 | q :: _ => 1 + slen q + unc q
+                 | [] => 0
+                 end
+          end
+      end
+  | _ => 0
+  end.
+
+Definition is_target (k : kind) (f : fd) (l : label) : bool :=
+  match l with Callback k' f' => kind_eqb k k' && (f =? f') | _ => false end.
+
+(* close(): an upper bound on the number of internal steps before it has returned *)
+Definition selpot (s : state) : nat :=
+  (match sp s with
+   | STop => 4 | SHeld => 3 | SNotified => 4 | SWaiting => 1 | SExiting => 1
+   | STaken _ _ => 8 | SSelecting _ _ => 7 | SGot _ _ => 6
+   | SDone => 0 | SNotStarted => 0
+   end) + (match args s with Some _ => 8 | None => 0 end).
+Definition closecost (p : lpc) : nat :=
+  match p with
+  | LCloseWant => 21 | LCloseHeld => 20 | LCloseNotified => 16 | LCloseWake => 15
+  | LCloseJoin => 14 | LCloseRm => 13 | LCloseFin => 11 | _ => 0
+  end.
+Definition cdist (s : state) : nat := closecost (lp s) + selpot s + (if pend s then 1 else 0).
+
+Fixpoint count_internal (tr : list event) : nat :=
+  match tr with [] => 0 | e :: tr' => (if internal (snd e) then 1 else 0) + count_internal tr' end.
